@@ -202,42 +202,12 @@ def gen_cases(ctx) -> list[dict]:
     cases.append(mk_case("hw_stp", [[(1, 10)], [(20, 20)]], [[(1, 5)], [(21, 21)]], "corpus-out-of-domain"))
     n_corpus = len(cases)
 
-    # (2) exhaustive small scope: all pairs of subsets of a universe, all splittings into <= 3 lines
-    if ctx.thorough:
-        scopes = [("hw_trunk", [1, 2, 3, 5, 6, 8, 10, 11]),
-                  ("cisco_swtrunk", [1, 2, 3, 5, 6, 8]), ("nexus_vlan", [1, 2, 3, 5, 6, 8]),
-                  ("hw_batch", [1, 2, 3, 5, 6, 8]), ("hw_hybrid_tagged", [1, 2, 3, 5, 6, 8])]
-    else:
-        scopes = [("hw_trunk", [1, 2, 4, 6, 7]), ("nexus_swtrunk", [1, 2, 4, 6])]
-    n_exh = 0
-    scope_txt = []
-    for kind, uni in scopes:
-        subsets = [[v for i, v in enumerate(uni) if m >> i & 1] for m in range(1 << len(uni))]
-        confs = [sp for s in subsets for sp in all_splittings(ranges_of(s), 3)]
-        for o in confs:
-            for n in confs:
-                cases.append(mk_case(kind, o, n, "exhaustive"))
-                n_exh += 1
-        scope_txt.append(f"{kind}: all pairs of subsets of {uni} x all splittings of both range lists into <= 3 lines "
-                         f"({len(confs)} configurations)")
-    # single: one line each side, plus one unchanged line
-    uni = [1, 2, 3, 5, 6, 8] if ctx.thorough else [1, 2, 4, 6]
-    subsets = [[v for i, v in enumerate(uni) if m >> i & 1] for m in range(1 << len(uni))]
-    for o in subsets:
-        for n in subsets:
-            op = [ranges_of(o)] if o else []
-            np_ = [ranges_of(n)] if n else []
-            cases.append(mk_case("hw_stp", op, np_, "exhaustive"))
-            cases.append(mk_case("hw_stp", [[(100, 110)]] + op, [[(100, 110)]] + np_, "exhaustive"))
-            n_exh += 2
-    scope_txt.append(f"hw_stp: all pairs of subsets of {uni} on one line, with and without an unchanged second line")
-
     # (3) random over 1..4094, 1..4 lines
     n_rand = 12000 if ctx.thorough else 1300
     for i in range(n_rand):
         kind = kinds[i % len(kinds)]
         single = KINDS[kind]["logic"] == "HwSingle"
-        size = rng.choice(["small", "small", "medium", "medium", "large"] if i % 7 else ["large"])
+        size = rng.choice(["small", "small", "small", "medium", "medium", "medium", "medium", "large"] if i % 25 else ["large"])
         so = random_set(rng, size)
         old_parts = random_splitting(rng, ranges_of(so), 1 if single and rng.random() < 0.6 else 4)
         mode = rng.random()
@@ -271,9 +241,52 @@ def gen_cases(ctx) -> list[dict]:
         if KINDS[kind]["logic"] == "CiscoSwtrunk" and rng.random() < 0.03:
             old_parts = [[]]
         cases.append(mk_case(kind, old_parts, new_parts, src))
-    ctx.coverage["input_distribution"] = {"corpus": n_corpus, "exhaustive": n_exh, "random": n_rand,
-                                          "exhaustive_scope": scope_txt}
+    ctx.coverage["input_distribution"] = {"corpus": n_corpus, "random": n_rand}
     return cases
+
+
+def exhaustive_scopes(ctx) -> list[tuple[str, list[int]]]:
+    if ctx.thorough:
+        return [("hw_trunk", [1, 2, 3, 5, 6, 8, 10, 11]),
+                ("cisco_swtrunk", [1, 2, 3, 5, 6, 8]), ("nexus_vlan", [1, 2, 3, 5, 6, 8]),
+                ("hw_batch", [1, 2, 3, 5, 6, 8]), ("hw_hybrid_tagged", [1, 2, 3, 5, 6, 8]),
+                ("hw_hybrid_untagged", [1, 2, 4, 6]), ("cisco_vlan", [1, 2, 4, 6]), ("nexus_swtrunk", [1, 2, 4, 6]),
+                ("cisco_vlan_group", [1, 2, 4]), ("nexus_vlan_group", [1, 2, 4])]
+    return [("hw_trunk", [1, 2, 4, 6]), ("nexus_swtrunk", [1, 2, 4]), ("hw_batch", [1, 2, 4]),
+            ("cisco_vlan", [1, 2, 4])]
+
+
+def gen_exhaustive(ctx, slab: int = 120000):
+    """exhaustive small scope, yielded in slabs: all pairs of subsets of a universe x all splittings of
+    both range lists into <= 3 lines; for `single`: one line per side, with/without an unchanged line"""
+    scope_txt = []
+    buf: list[dict] = []
+    n = 0
+    for kind, uni in exhaustive_scopes(ctx):
+        subsets = [[v for i, v in enumerate(uni) if m >> i & 1] for m in range(1 << len(uni))]
+        confs = [sp for s in subsets for sp in all_splittings(ranges_of(s), 3)]
+        scope_txt.append(f"{kind}: all pairs of subsets of {uni} x all splittings of both range lists into <= 3 lines "
+                         f"({len(confs)} configurations, {len(confs) ** 2} cases)")
+        for o in confs:
+            for nn in confs:
+                buf.append(mk_case(kind, o, nn, "exhaustive"))
+            if len(buf) >= slab:
+                n += len(buf)
+                yield buf
+                buf = []
+    uni = [1, 2, 3, 5, 6, 8] if ctx.thorough else [1, 2, 4, 6]
+    subsets = [[v for i, v in enumerate(uni) if m >> i & 1] for m in range(1 << len(uni))]
+    for o in subsets:
+        for nn in subsets:
+            op = [ranges_of(o)] if o else []
+            np_ = [ranges_of(nn)] if nn else []
+            buf.append(mk_case("hw_stp", op, np_, "exhaustive"))
+            buf.append(mk_case("hw_stp", [[(100, 110)]] + op, [[(100, 110)]] + np_, "exhaustive"))
+    scope_txt.append(f"hw_stp: all pairs of subsets of {uni} on one line, with and without an unchanged second line")
+    n += len(buf)
+    ctx.coverage["input_distribution"]["exhaustive"] = n
+    ctx.coverage["input_distribution"]["exhaustive_scope"] = scope_txt
+    yield buf
 
 
 # ---------------------------------------------------------------------------------------
@@ -359,10 +372,21 @@ def run_compact(cases: list[dict], outs: list[dict], per_file: int, tag: str = "
             "Open Scope string_scope.\n" + IMPORTS + "\n" + kinds + "\n")
     files = []
     for k in range(0, len(cases), per_file):
-        body = "\n".join(enc_case(i, cases[i], outs[i]) for i in range(k, min(len(cases), k + per_file)))
+        # string constants of <= ~8 KB each (deeper literals overflow coqc's default stack)
+        consts, cur, size = [], [], 0
+        for i in range(k, min(len(cases), k + per_file)):
+            l = enc_case(i, cases[i], outs[i])
+            if cur and size + len(l) > 8000:
+                consts.append("\n".join(cur))
+                cur, size = [], 0
+            cur.append(l)
+            size += len(l) + 1
+        if cur:
+            consts.append("\n".join(cur))
         f = d / f"{tag}_{k // per_file}.v"
-        f.write_text(head + 'Definition data : string := "' + body + '".\n'
-                     "Eval vm_compute in check_data kinds data.\n")
+        f.write_text(head + "".join(f'Definition d{j} : string := "{b}".\n' for j, b in enumerate(consts)) +
+                     "Eval vm_compute in flat_map (check_data kinds) " +
+                     clist(f"d{j}" for j in range(len(consts))) + ".\n")
         files.append((f, k, min(len(cases), k + per_file)))
 
     def one(job):
@@ -401,66 +425,64 @@ def diagnose(cases: list[dict], outs: list[dict], idx: list[int]) -> dict[int, s
     return {i: re.sub(r'^"|"(%string)?$', "", v.strip()) for i, v in zip(idx, vals)}
 
 
-def run(ctx):
-    core.proof_stage(ctx, THEOREM_FILE)
-    cases = gen_cases(ctx)
-    ctx.rng("order").shuffle(cases)      # spread the large random cases evenly over the case files
-    outs = core.run_impl_sharded("c11_runner.py", [impl_payload(c) for c in cases])
-    # pass 1: every case, compact files, one conjunction; pass 2: the failing cases only, as
-    # structured terms, to tell which predicate failed
-    per_file = max(300, min(6000, len(cases) // (4 * core.NPROC) + 1))
-    failing = run_compact(cases, outs, per_file)
-    sub = failing[:2000]
-    res = {l: [] for l in PREDS}
-    if sub:
-        r2 = core.run_case_files(ID, TY, IMPORTS, PREDS, [c_case(cases[i], outs[i]) for i in sub],
-                                 per_file=PER_FILE, extra_defs=KIND_DEFS)
-        res = {l: [sub[j] for j in v] for l, v in r2.items()}
-        if not any(res.values()):
-            raise core.CheckFailure("compact and structured case files disagree on failing cases")
+class Stats:
+    def __init__(self):
+        self.seen: set[int] = set()
+        self.n = 0
+        self.nontrivial = 0
+        self.with_unchanged = 0
+        self.kind: dict[str, int] = {}
+        self.lines: dict[str, int] = {}
+        self.out = {"rows": 0, "exc": 0, "no_commands": 0}
+        self.failing = 0
+        self.bad = {l: 0 for l in PREDS}
+        self.samples: list = []
 
-    seen = set()
-    nontrivial = 0
-    hist_kind: dict[str, int] = {}
-    hist_lines: dict[str, int] = {}
-    hist_out = {"rows": 0, "exc": 0, "no_commands": 0}
-    with_unchanged = 0
-    for c, o in zip(cases, outs):
-        hist_kind[c["kind"]] = hist_kind.get(c["kind"], 0) + 1
-        key = f"{len(c['old'])}->{len(c['new'])}"
-        hist_lines[key] = hist_lines.get(key, 0) + 1
-        if "exc" in o:
-            hist_out["exc"] += 1
-        elif not o["rows"]:
-            hist_out["no_commands"] += 1
-        else:
-            hist_out["rows"] += 1
-        h = core.canon_hash([c["kind"], c["old"], c["new"]])
-        if h in seen:
-            continue
-        seen.add(h)
-        unchanged = [r for r in c["old_rows"] if r in c["new_rows"]]
-        changed = [r for r in c["old_rows"] if r not in c["new_rows"]] + [r for r in c["new_rows"] if r not in c["old_rows"]]
-        if unchanged and changed:
-            with_unchanged += 1
-        if changed and "rows" in o and o["rows"]:
-            nontrivial += 1
-    ctx.coverage.update({
-        "evaluations": len(cases),
-        "distinct_nontrivial": nontrivial,
-        "rule": "distinct by (rule kind, old lines, new lines); non-trivial = at least one line differs and the "
-                "implementation emitted at least one command row",
-        "samples": [{"input": {"kind": c["kind"], "old_rows": c["old_rows"], "new_rows": c["new_rows"]}, "impl": o}
-                    for c, o in list(zip(cases, outs))[-3:]],
-        "traces_validated_against_impl": len(cases),
-        "disagreements_checked": len(res["agree"]),
-        "struct_vs_text_model_mismatches": len(res["struct_is_text"]),
-        "kind_histogram": hist_kind,
-        "lines_histogram": hist_lines,
-        "outcome_histogram": hist_out,
-        "distinct_cases_with_unchanged_and_changed_lines": with_unchanged,
-        "exhaustive": False,
-    })
+    def add(self, cases, outs):
+        for c, o in zip(cases, outs):
+            self.n += 1
+            self.kind[c["kind"]] = self.kind.get(c["kind"], 0) + 1
+            key = f"{len(c['old'])}->{len(c['new'])}"
+            self.lines[key] = self.lines.get(key, 0) + 1
+            if "exc" in o:
+                self.out["exc"] += 1
+            elif not o["rows"]:
+                self.out["no_commands"] += 1
+            else:
+                self.out["rows"] += 1
+            h = hash((c["kind"], tuple(c["old_rows"]), tuple(c["new_rows"])))
+            if h in self.seen:
+                continue
+            self.seen.add(h)
+            new_rows = set(c["new_rows"])
+            old_rows = set(c["old_rows"])
+            changed = old_rows != new_rows
+            if changed and old_rows & new_rows:
+                self.with_unchanged += 1
+            if changed and o.get("rows"):
+                self.nontrivial += 1
+
+
+def process(ctx, cases: list[dict], stats: Stats, tag: str) -> None:
+    """implementation on every case; pass 1: compact files, one conjunction over every case; pass 2: the
+    failing cases only, as structured terms, to tell which predicate failed"""
+    outs = core.run_impl_sharded("c11_runner.py", [impl_payload(c) for c in cases])
+    stats.add(cases, outs)
+    stats.samples = [{"input": {"kind": c["kind"], "old_rows": c["old_rows"], "new_rows": c["new_rows"]}, "impl": o}
+                     for c, o in list(zip(cases, outs))[-3:]]
+    per_file = max(40, min(8000, len(cases) // (3 * core.NPROC) + 1))
+    failing = run_compact(cases, outs, per_file, tag="compact_" + tag)
+    stats.failing += len(failing)
+    sub = failing[:600]
+    if not sub:
+        return
+    r2 = core.run_case_files(ID, TY, IMPORTS, PREDS, [c_case(cases[i], outs[i]) for i in sub],
+                             per_file=PER_FILE, extra_defs=KIND_DEFS, tag="cases_" + tag)
+    res = {l: [sub[j] for j in v] for l, v in r2.items()}
+    if not any(res.values()):
+        raise core.CheckFailure("compact and structured case files disagree on failing cases")
+    for l in PREDS:
+        stats.bad[l] += len(res[l])
     bad = res["holds"]
     diag = diagnose(cases, outs, bad[:200])
     for i in bad[:200]:
@@ -484,6 +506,32 @@ def run(ctx):
                 what="structured model (theorems) and text-level model differ on a generated case",
                 replay={"correspondence": "Model.Vlan.model_struct vs Model.Vlan.model_rows", "case": cases[i]},
                 no_input=True))
+
+
+def run(ctx):
+    core.proof_stage(ctx, THEOREM_FILE)
+    stats = Stats()
+    cases = gen_cases(ctx)
+    ctx.rng("order").shuffle(cases)      # spread the large random cases evenly over the case files
+    process(ctx, cases, stats, "main")
+    for n, slab in enumerate(gen_exhaustive(ctx)):
+        process(ctx, slab, stats, f"exh{n}")
+    ctx.coverage.update({
+        "evaluations": stats.n,
+        "distinct_nontrivial": stats.nontrivial,
+        "rule": "distinct by (rule kind, old rows, new rows); non-trivial = the two lists differ in at least one "
+                "line and the implementation emitted at least one command row",
+        "samples": stats.samples,
+        "traces_validated_against_impl": stats.n,
+        "disagreements_checked": stats.bad["agree"],
+        "cases_failing_any_predicate": stats.failing,
+        "struct_vs_text_model_mismatches": stats.bad["struct_is_text"],
+        "kind_histogram": stats.kind,
+        "lines_histogram": stats.lines,
+        "outcome_histogram": stats.out,
+        "distinct_cases_with_unchanged_and_changed_lines": stats.with_unchanged,
+        "exhaustive": False,
+    })
     ctx.assumptions += [
         "device semantics of the commands: `undo P a to b` / `no P [remove] a-b` remove the written VLANs, `P ...` / "
         "`P add ...` add them, `undo P all`, `undo instance N`, `P none` empty the list (Model.Vlan.step)",
